@@ -125,4 +125,181 @@ theorem filter_fresh (bs l : List Nat) (h : ∀ x ∈ l, x ∉ bs) : l.filter (f
   intro x hx
   simpa using h x hx
 
+/-! ### the loop on a subtree -/
+
+/-- the symbol of the bond that leads to node `k` -/
+def SymAt (g : WGraph) (pred : List (Nat × Nat)) (k : Nat) (sym : Str) : Prop :=
+  (match pred.lookup k with
+   | some previous => edgeSymbol g previous k
+   | none => pure []) = .ok sym
+
+theorem erase_last (l : List Nat) (k : Nat) (h : k ∉ l) : (l ++ [k]).erase k = l := by
+  induction l with
+  | nil => simp
+  | cons x xs ih =>
+    have hx : x ≠ k := fun e => h (by rw [e]; exact List.mem_cons_self)
+    have hxs : k ∉ xs := fun e => h (List.mem_cons_of_mem _ e)
+    have hb : (x == k) = false := by simpa using hx
+    simp only [List.cons_append, List.erase_cons, hb]
+    rw [ih hxs]
+    rfl
+
+theorem erase_not_mem (l : List Nat) (k : Nat) (h : k ∉ l) : l.erase k = l := List.erase_of_not_mem h
+
+theorem mem_erase_sub (l : List Nat) (k x : Nat) (h : x ∈ l.erase k) : x ∈ l := List.mem_of_mem_erase h
+
+theorem brKeys_sub (k : Nat) (ks : Kids) (x : Nat) (h : x ∈ brKeys k ks) : x ∈ kidKeys k ks :=
+  List.mem_of_mem_dropLast h
+
+theorem kidKeys_cons (k o : Nat) (t : RT) (r : Kids) : kidKeys k (.cons o t r) = k :: kidKeys (k + t.size) r := rfl
+
+theorem brKeys_single (k o : Nat) (t : RT) : brKeys k (.cons o t .nil) = [] := by simp [brKeys, kidKeys]
+
+theorem brKeys_cons (k o o' : Nat) (t t' : RT) (r : Kids) :
+    brKeys k (.cons o t (.cons o' t' r)) = k :: brKeys (k + t.size) (.cons o' t' r) := by
+  simp [brKeys, kidKeys]
+
+variable (g : WGraph) (pred : List (Nat × Nat)) (hr : g.ringEdges = []) (hf : g.smilesFormat = false)
+
+mutual
+/-- the loop started on the root of a contained subtree writes the subtree's text (in parentheses
+    if the root is a pending branch), closes the innermost open parenthesis at the end of the
+    subtree's chain, and leaves the rest of the stack untouched -/
+theorem loop_T : ∀ (T : RT) (k : Nat) (acc : Str) (base bs : List Nat) (d : Nat) (sym : Str) (fuel : Nat),
+    EmbT g pred k T → SymAt g pred k sym → (∀ x ∈ bs, x ≤ k ∨ k + T.size ≤ x) →
+    writeLoop g pred (fuel + T.size) ⟨acc, base ++ [k], bs, d, []⟩ =
+      writeLoop g pred fuel
+        ⟨acc ++ sym ++ (if bs.contains k then ['('] else []) ++ T.text ++ closeText (if bs.contains k then d + 1 else d),
+         base, bs.erase k, (if bs.contains k then d + 1 else d) - 1, []⟩
+  | .node nm ks, k, acc, base, bs, d, sym, fuel, hemb, hsym, hfresh => by
+    unfold EmbT at hemb
+    obtain ⟨hnode, hsucc, hkids⟩ := hemb
+    have hstep := writeStep_node g pred hr hf acc base bs d k sym (nodeText nm) _ hnode hsucc hsym
+    rw [show fuel + (RT.node nm ks).size = (fuel + ks.size) + 1 from by simp [RT.size]; omega]
+    rw [writeLoop]
+    have hne : (base ++ [k]).isEmpty = false := by simp
+    simp only [hne, Bool.false_eq_true, if_false, hstep, bind, Except.bind]
+    cases ks with
+    | nil =>
+      simp only [kidKeys, afterNode, Kids.size, Nat.add_zero, RT.text, Kids.text, List.append_nil, closeText]
+      cases hb : bs.contains k <;> simp [hb]
+      all_goals (split <;> simp_all)
+    | cons o t r =>
+      have hkk : kidKeys (k + 1) (Kids.cons o t r) = (k + 1) :: kidKeys (k + 1 + t.size) r := rfl
+      simp only [hkk, afterNode]
+      -- the branches pushed: all kids but the last, none of them pending already
+      have hdrop : (((k + 1) :: kidKeys (k + 1 + t.size) r).reverse).drop 1 = (brKeys (k + 1) (Kids.cons o t r)).reverse := by
+        rw [drop_one_reverse]; rfl
+      have hbs1 : ∀ x ∈ (if bs.contains k then bs.erase k else bs), x < k + 1 ∨ k + 1 + (Kids.cons o t r).size ≤ x := by
+        intro x hx
+        have hx' : x ∈ bs := by
+          split at hx
+          · exact mem_erase_sub _ _ _ hx
+          · exact hx
+        have := hfresh x hx'
+        simp only [RT.size] at this
+        omega
+      have hfilter : (brKeys (k + 1) (Kids.cons o t r)).reverse.filter
+          (fun n => !(if bs.contains k then bs.erase k else bs).contains n) = (brKeys (k + 1) (Kids.cons o t r)).reverse := by
+        apply filter_fresh
+        intro x hx hmem
+        have hx' := kidKeys_range _ _ _ (brKeys_sub _ _ _ (List.mem_reverse.mp hx))
+        have := hbs1 x hmem
+        omega
+      rw [hdrop, hfilter]
+      have hK := loop_K (Kids.cons o t r) k (k + 1)
+        (acc ++ sym ++ (if bs.contains k then ['('] else []) ++ nodeText nm) base
+        (if bs.contains k then bs.erase k else bs) (if bs.contains k then d + 1 else d) fuel (by simp) hkids hbs1
+      rw [hkk] at hK
+      rw [hK]
+      congr 1
+      cases hb : bs.contains k
+      · simp [hb, RT.text, erase_not_mem bs k (by simpa using hb)]
+      · simp [hb, RT.text]
+/-- … and started on the pending kids of a node it writes them one after the other: every kid but
+    the last in parentheses, the last as the continuation of the chain -/
+theorem loop_K : ∀ (ks : Kids) (p k : Nat) (acc : Str) (base bs : List Nat) (d : Nat) (fuel : Nat), ks ≠ .nil →
+    EmbK g pred p k ks → (∀ x ∈ bs, x < k ∨ k + ks.size ≤ x) →
+    writeLoop g pred (fuel + ks.size) ⟨acc, base ++ (kidKeys k ks).reverse, bs ++ (brKeys k ks).reverse, d, []⟩ =
+      writeLoop g pred fuel ⟨acc ++ ks.text ++ closeText d, base, bs, d - 1, []⟩
+  | .nil, _, _, _, _, _, _, _, hne, _, _ => absurd rfl hne
+  | .cons o t .nil, p, k, acc, base, bs, d, fuel, _, hemb, hfresh => by
+    unfold EmbK at hemb
+    obtain ⟨hpred, hes, hT, _⟩ := hemb
+    have hsym : SymAt g pred k (symText o) := by unfold SymAt; rw [hpred]; exact hes
+    have hkn : k ∉ bs := by
+      intro hm
+      have := hfresh k hm
+      have hp := RT.size_pos t
+      simp only [Kids.size] at this
+      omega
+    have hcont : bs.contains k = false := by simpa using hkn
+    have hfT : ∀ x ∈ bs, x ≤ k ∨ k + t.size ≤ x := by
+      intro x hx
+      have := hfresh x hx
+      simp only [Kids.size] at this
+      omega
+    have hT' := loop_T t k acc base bs d (symText o) fuel hT hsym hfT
+    simp only [kidKeys, List.reverse_cons, List.reverse_nil, List.nil_append, brKeys_single, List.append_nil, Kids.size,
+      Nat.add_zero, Kids.text]
+    rw [hT']
+    simp [hcont, erase_not_mem bs k hkn]
+  | .cons o t (.cons o' t' r), p, k, acc, base, bs, d, fuel, _, hemb, hfresh => by
+    unfold EmbK at hemb
+    obtain ⟨hpred, hes, hT, hR⟩ := hemb
+    have hsym : SymAt g pred k (symText o) := by unfold SymAt; rw [hpred]; exact hes
+    have hp := RT.size_pos t
+    have hkn : k ∉ bs := by
+      intro hm
+      have := hfresh k hm
+      simp only [Kids.size] at this
+      omega
+    have hkb : k ∉ (brKeys (k + t.size) (Kids.cons o' t' r)).reverse := by
+      intro hm
+      have := kidKeys_range _ _ _ (brKeys_sub _ _ _ (List.mem_reverse.mp hm))
+      omega
+    -- the state in the shape loop_T expects
+    have hstack : base ++ (kidKeys k (Kids.cons o t (Kids.cons o' t' r))).reverse =
+        (base ++ (kidKeys (k + t.size) (Kids.cons o' t' r)).reverse) ++ [k] := by
+      rw [kidKeys_cons, List.reverse_cons, List.append_assoc]
+    have hbr : bs ++ (brKeys k (Kids.cons o t (Kids.cons o' t' r))).reverse =
+        (bs ++ (brKeys (k + t.size) (Kids.cons o' t' r)).reverse) ++ [k] := by
+      rw [brKeys_cons, List.reverse_cons, List.append_assoc]
+    have hcont : ((bs ++ (brKeys (k + t.size) (Kids.cons o' t' r)).reverse) ++ [k]).contains k = true := by simp
+    have hfT : ∀ x ∈ (bs ++ (brKeys (k + t.size) (Kids.cons o' t' r)).reverse) ++ [k], x ≤ k ∨ k + t.size ≤ x := by
+      intro x hx
+      rcases List.mem_append.mp hx with hx | hx
+      · rcases List.mem_append.mp hx with hx | hx
+        · have := hfresh x hx
+          simp only [Kids.size] at this
+          omega
+        · have := kidKeys_range _ _ _ (brKeys_sub _ _ _ (List.mem_reverse.mp hx))
+          omega
+      · simp only [List.mem_singleton] at hx; omega
+    have hT' := loop_T t k acc (base ++ (kidKeys (k + t.size) (Kids.cons o' t' r)).reverse)
+      ((bs ++ (brKeys (k + t.size) (Kids.cons o' t' r)).reverse) ++ [k]) d (symText o) (fuel + (Kids.cons o' t' r).size) hT hsym hfT
+    have hfR : ∀ x ∈ bs, x < k + t.size ∨ k + t.size + (Kids.cons o' t' r).size ≤ x := by
+      intro x hx
+      have := hfresh x hx
+      simp only [Kids.size] at this ⊢
+      omega
+    have hR' := loop_K (Kids.cons o' t' r) p (k + t.size)
+      (acc ++ symText o ++ ['('] ++ t.text ++ closeText (d + 1)) base bs d fuel (by simp) hR hfR
+    rw [hstack, hbr]
+    rw [show fuel + (Kids.cons o t (Kids.cons o' t' r)).size = (fuel + (Kids.cons o' t' r).size) + t.size from by
+      simp only [Kids.size]; omega]
+    rw [hT']
+    simp only [hcont, if_true, Nat.add_sub_cancel]
+    have herase : ((bs ++ (brKeys (k + t.size) (Kids.cons o' t' r)).reverse) ++ [k]).erase k =
+        bs ++ (brKeys (k + t.size) (Kids.cons o' t' r)).reverse := by
+      apply erase_last
+      intro hm
+      rcases List.mem_append.mp hm with hm | hm
+      · exact hkn hm
+      · exact hkb hm
+    rw [herase, hR']
+    congr 1
+    simp [Kids.text, closeText]
+end
+
 end CGV.C07
